@@ -473,6 +473,15 @@ func (fe *FnEnc) atExit() {
 		o.Cover = true
 	}
 	fe.frameCheck(ev, pos)
+	if ct.Opts["noalloc"] != "" {
+		var gs []string
+		for _, gk := range sortedKeys(fe.mem.ghost) {
+			if strings.HasPrefix(gk, "next_") {
+				gs = append(gs, "(= "+fe.mem.ghost[gk]+" "+s.ghostGet(fe.entryMem, gk, "Int")+")")
+			}
+		}
+		fe.oblig("noalloc", "", implies(fe.guard, and(gs...)), "the function allocates no heap object (as its contract declares)", pos)
+	}
 }
 
 // frameCheck: every location not covered by an assigns clause is unchanged.
